@@ -107,6 +107,55 @@ transaction {
 }
 `
 
+// second account: large (multi-slab) stored containers and many paths, read back lazily by later executions
+const setupBulkTx = `
+import C from 0x1
+transaction {
+    prepare(signer: auth(Storage, Capabilities) &Account) {
+        var d: {Int: String} = {}
+        var a: [String] = []
+        var k = 0
+        while k < 400 {
+            d[k] = "value-".concat(k.toString()).concat("-0123456789abcdef")
+            k = k + 1
+        }
+        k = 0
+        while k < 300 {
+            a.append("element-".concat(k.toString()).concat("-0123456789abcdef0123456789"))
+            k = k + 1
+        }
+        signer.storage.save(d, to: /storage/bigDict)
+        signer.storage.save(a, to: /storage/bigArr)
+        var n: {String: [Int]} = {}
+        k = 0
+        while k < 60 {
+            n["k".concat(k.toString())] = [k, k + 1, k + 2, k + 3, k + 4, k + 5, k + 6, k + 7, k + 8, k + 9]
+            k = k + 1
+        }
+        signer.storage.save(n, to: /storage/nested)
+        var rs: @{Int: C.R} <- {}
+        k = 0
+        while k < 40 {
+            rs[k] <-! C.makeR(v: k)
+            k = k + 1
+        }
+        signer.storage.save(<-rs, to: /storage/resDict)
+        k = 0
+        while k < 60 {
+            signer.storage.save(k, to: StoragePath(identifier: "p".concat(k.toString()))!)
+            k = k + 1
+        }
+        k = 0
+        while k < 30 {
+            let cap = signer.capabilities.storage.issue<&Int>(StoragePath(identifier: "p".concat(k.toString()))!)
+            signer.capabilities.publish(cap, at: PublicPath(identifier: "q".concat(k.toString()))!)
+            k = k + 1
+        }
+    }
+}
+`
+
+var addr4 = common.MustBytesToAddress([]byte{4})
 var addr1 = common.MustBytesToAddress([]byte{1})
 var addr2 = common.MustBytesToAddress([]byte{2})
 var addr3 = common.MustBytesToAddress([]byte{3})
@@ -122,6 +171,10 @@ func buildWorld() (*world, error) {
 	o := h.RunTx(setupTx, nil, []common.Address{addr1}, false)
 	if o.Err != nil || o.Panic != nil {
 		return nil, fmt.Errorf("setup: %v %v", o.Err, o.Panic)
+	}
+	o = h.RunTx(setupBulkTx, nil, []common.Address{addr4}, false)
+	if o.Err != nil || o.Panic != nil {
+		return nil, fmt.Errorf("bulk setup: %v %v", o.Err, o.Panic)
 	}
 	// broken (old-syntax) code planted directly; only RecoverProgram can make it loadable
 	h.Codes[common.AddressLocation{Address: addr1, Name: "B"}] = []byte(brokenB)
